@@ -378,7 +378,7 @@ StyleDims == [ case   : {"lower", "upper", "mixed"},
                indent : {"", "  ", "tab", "wide"},
                trail  : {"", " ", " ; comment", ";c", "tab; x", "wide", "wide; c"},   \* "wide": more blanks than a line may hold characters
                eol    : {"none", "lf", "crlf"},
-               zeros  : {"asis", "lead"},
+               zeros  : {"asis", "lead", "pad16"},       \* pad16: hexadecimal padded to 16 digits, decimal to 20
                radix  : {"asis", "swap"} ]
 DefaultStyle == [case |-> "lower", sep |-> "space", comma |-> ", ", brack |-> "tight", indent |-> "", trail |-> "",
                  eol |-> "none", zeros |-> "asis", radix |-> "asis"]
